@@ -251,3 +251,8 @@ contract(
     props=["C14", "C01"],
     doc="digest = reference digest of the whole content regardless of read chunking",
 )
+
+# tell() of the wrapped file: its absolute position -- NOT a count of what passed through a wrapper (the file may have been read
+# or positioned before): an unconstrained non-negative integer as far as the wrapper's bookkeeping is concerned
+contract("ext:BinaryIO.tell", params=dict(self=BinaryIO), returns=TInt, ensures=lambda c: c.result >= 0, assumed=True,
+         doc="fobj.tell(): the absolute position in the wrapped file (unrelated to the number of bytes a wrapper handed on)")
